@@ -328,6 +328,28 @@ fn check_staleness(
         let other = ALL_METRICS[(probe + i) % 7];
         if other != m {
             with_metric!(other, D => check_open::<D>(raw, rtxn, isp.index, open_expect(s, other), ctx))?;
+            // need_build has two reasons to answer true (never built, items changed); the metric the asking writer is
+            // typed with is not one of them
+            let got = with_metric!(other, D => {
+                let w = Writer::<D>::new(db_for::<D>(raw), isp.index, isp.dims);
+                catch(|| w.need_build(rtxn))
+            });
+            match got {
+                Ok(Ok(b)) if b == want_need => {}
+                other_res => {
+                    return violation(
+                        "staleness:need-build",
+                        format!(
+                            "{ctx}: need_build(index {}) asked through a writer typed {} = {:?}, expected {want_need} (built {:?}, stale {})",
+                            isp.index,
+                            other.short(),
+                            other_res.map(|r| r.map_err(|e| format!("{e:?}"))).map_err(|p| p.message),
+                            s.built,
+                            s.stale
+                        ),
+                    )
+                }
+            }
         }
     }
     Ok(())
